@@ -22,7 +22,10 @@ type DocCase struct {
 	Feats []string   `json:"feats"`
 }
 
-var fieldNamePool = []string{"Package", "Version", "Source", "Depends", "Description", "Architecture", "Maintainer", "Files", "X-Foo", "Checksums-Sha256", "Homepage", "Build-Depends", "a", "Z9", "x_y.z+w-v", "Priority", "Section", "Tag", "Binary", "Format"}
+// includes names that coincide with Go member names of the library's own types (Values, Order,
+// Epoch, ...): to a deb822 document they are ordinary field names
+var fieldNamePool = []string{"Package", "Version", "Source", "Depends", "Description", "Architecture", "Maintainer", "Files", "X-Foo", "Checksums-Sha256", "Homepage", "Build-Depends", "a", "Z9", "x_y.z+w-v", "Priority", "Section", "Tag", "Binary", "Format",
+	"Values", "Order", "Epoch", "Revision", "Paragraph", "Filename"}
 
 func genFieldName(t *rapid.T, label string, used map[string]bool) string {
 	for i := 0; ; i++ {
